@@ -2156,8 +2156,18 @@ func (s *crSess) batch(words []string, emit func(string, string), fail func(stri
 	}
 	time.Sleep(2 * time.Millisecond)
 	release()
+	deadline := time.After(60 * time.Second)
 	for range reqs {
-		<-done
+		select {
+		case <-done:
+		case <-deadline:
+			// never observed on the unchanged tree: reported instead of hanging the run
+			emit("batch "+strings.Join(reqs, " "), "err:batch-timeout")
+			fail("[impl-hang] a batch of commits was not acknowledged within 60 s")
+			s.stepKind = append(s.stepKind, "batch")
+			s.steps++
+			return
+		}
 	}
 	s.barrier()
 	okAll := true
